@@ -200,3 +200,18 @@ PROPS["C02"] = dict(
              quick=dict(shards=16, timeout=900, env=dict(VERIF_C02_STRIDE=37)), thorough=dict(shards=16, timeout=14000, env=dict(VERIF_C02_STRIDE=1))),
     ],
 )
+
+PROPS["C05"] = dict(
+    level="exploration", engine="E3 session", bins=True,
+    technique="property-based testing (rapid): generated histories of server output, user input and transfers through the exported filter; byte-for-byte pass-through oracle",
+    level_text="Random search over histories of (server-output chunks, user-input chunks, transfers with outcome succeeded / refused / failed by killing the server / stopped) "
+               "through one long-lived exported filter under all 16 option sets (drag detection, zmodem, OSC52, trace log). Output alphabets: random binary, terminal escape sequences, "
+               "near-miss triggers, zmodem-like and OSC52 fragments, trace-log near-misses, protocol look-alikes, 1-70 KB blocks; input: random bytes, keys, bracketed paste, path-like text "
+               "naming files that do not exist. Oracle: everything written to the terminal equals the server output fed, everything reaching the server equals the input typed, checked after "
+               "every step and again after every transfer outcome (the filter must have left transfer mode).",
+    level_note="Complete triggers, complete zmodem headers and the literal trace-log markers are excluded by construction and counted. The wrapped command's exit status (trzsz binary + pty) is "
+               "not exercised by this check.",
+    rule="non-trivial = at least two chunks were passed through; distinct by SHA-1 of the case JSON; labels report option sets and preceding transfer outcomes",
+    tests=[dict(name="TestVF_C05", env=dict(VERIF_CASE_LIMIT=300),
+                quick=dict(checks=2400, shards=16, timeout=600), thorough=dict(checks=120000, shards=32, timeout=6000))],
+)
